@@ -20,6 +20,7 @@ import (
 	"net"
 	"net/http"
 	"strconv"
+	"strings"
 
 	"github.com/caddyserver/certmagic"
 	"github.com/tmpim/casket"
@@ -209,14 +210,14 @@ func redirPlaintextHost(cfg *SiteConfig) *SiteConfig {
 			// request might contain a port, but we just need the hostname from
 			// it; and we'll set the port if needed.
 			toURL := "https://"
-			requestHost, _, err := net.SplitHostPort(r.Host)
-			if err != nil {
-				requestHost = r.Host // Host did not contain a port, so use the whole value
+			requestHost := r.Host // if Host does not contain a port, use the whole value
+			if _, port, err := net.SplitHostPort(r.Host); err == nil {
+				// drop the port only, so that an IPv6 literal keeps its brackets
+				requestHost = strings.TrimSuffix(r.Host, ":"+port)
 			}
-			if redirPort == "" {
-				toURL += requestHost
-			} else {
-				toURL += net.JoinHostPort(requestHost, redirPort)
+			toURL += requestHost
+			if redirPort != "" {
+				toURL += ":" + redirPort
 			}
 
 			toURL += r.URL.RequestURI()
